@@ -257,6 +257,27 @@ def systematic_cases(tier):
             for j in range(0, ntok, tstep):
                 for d in ((1, -1) if quick else (1, -1, 2, 5)):
                     yield mk(["small_int", j, d])
+            # documents inside zip containers: the archive is rebuilt around the corrupted member
+            if data[:2] == b"PK":
+                import io as _io
+                import zipfile as _zf
+
+                try:
+                    members = [(nm, _zf.ZipFile(_io.BytesIO(data)).read(nm)) for nm in _zf.ZipFile(_io.BytesIO(data)).namelist()][:8]
+                except Exception:  # noqa
+                    members = []
+                for j, (nm, payload) in enumerate(members):
+                    mtok = len(_re.findall(rb"(?<![\d.\-+eE])\d(?![\d.eE])", payload))
+                    for t in range(0, mtok, max(1, mtok // (40 if quick else 400))):
+                        for d in (1, -1):
+                            yield mk(["zip_member", j, ["small_int", t, d]])
+                    ln = len(payload)
+                    for i in range(0, ln, max(1, ln // (12 if quick else 200))):
+                        yield mk(["zip_member", j, ["truncate", i]])
+                        yield mk(["zip_member", j, ["byte", i, "xor80"]])
+                        yield mk(["zip_member", j, ["byte", i, 0x39]])
+                    for i in range(0, 8 if quick else 60):
+                        yield mk(["zip_member", j, ["line_digit", i, 4294967295]])
             # ascii integers
             for i in range(0, 16 if quick else 200):
                 for v in ((0, 4294967295, -7) if quick else (0, 4294967295, 10**12, -7, 99999999)):
@@ -304,6 +325,64 @@ def random_case(draw):
     return case
 
 
+SCALING_FORMATS = ["off", "obj", "ply_ascii", "ply", "stl", "stl_ascii", "glb"]
+
+
+def scaling_cases(tier):
+    for fmt in SCALING_FORMATS:
+        text = fmt in ("off", "obj", "ply_ascii", "stl_ascii")
+        faults = [["none"]]
+        if text:
+            for f in (0.55, 0.8, 0.97):
+                for tok in (2, 4, "x"):
+                    faults.append(["frac_token", f, tok])
+        for f in (0.3, 0.6, 0.9):
+            faults.append(["frac_byte", f, "xor80"])
+            faults.append(["frac_byte", f, 0x39])
+        if tier == "quick":
+            faults = faults[:1] + faults[1::2]
+        for fault in faults:
+            yield {"fmt": fmt, "fault": fault}
+
+
+@body("C20.scaling")
+def b_scaling(case, ctx):
+    """time and memory stay proportional to the input: the same relative fault in a file of N and of 4 N faces"""
+    fmt, fault = case["fmt"], case["fault"]
+    res = []
+    for level in (5, 6):
+        c = {"fmt": fmt, "seed": 0, "fault": fault, "entry": "load", "via_path": False, "big": level, "cpu_budget": 240.0}
+        r = _WORKER.run(c, wall=600)
+        if r["status"] in ("no_answer", "died"):
+            w = Worker()
+            r = w.run(c, wall=900)
+            w.kill()
+        res.append(r)
+    small, large = res
+    ctx.note(nontrivial=fault[0] != "none", cls=[f"scaling:{fmt}", f"scaling:fault={fault[0]}", f"scaling:outcome={large['status']}"])
+    sigp = f"C20.scaling|fmt={fmt}"
+    if large["status"] in ("no_answer", "cpu_timeout", "died"):
+        raise Violation(sigp + f"|hang|fault={fault[0]}", f"no result for the {large.get('n')} byte input within 240 s CPU ({large['status']}); the {small.get('n')} byte input took {small.get('cpu_s')} s; fault {fault}")
+    if large["status"] == "exception" and not large.get("base", True):
+        raise Violation(sigp + f"|bad_exception|{large['exc']}", f"{large['exc']}: {large.get('msg', '')}; fault {fault}")
+    t1, t4 = float(small.get("cpu_s", 0.0)), float(large.get("cpu_s", 0.0))
+    n1, n4 = max(int(small.get("n", 1)), 1), max(int(large.get("n", 1)), 1)
+    # four times the input may take four times as long (plus constant costs); 12 x and more than 3 s is superlinear
+    if t4 > 3.0 and t4 > 3.0 * (n4 / n1) * max(t1, 0.05):
+        raise Violation(sigp + f"|superlinear_time|fault={fault[0]}", f"{n1} bytes: {t1} s CPU, {n4} bytes: {t4} s CPU; fault {fault}")
+    m1, m4 = int(small.get("peak_kb", 0)), int(large.get("peak_kb", 0))
+    if m4 > 64 * 1024 + 2000 * n4 // 1024:
+        raise Violation(sigp + f"|memory|fault={fault[0]}", f"peak memory grew by {m4} kB for a {n4} byte input ({m1} kB for {n1} bytes); fault {fault}")
+
+
+@subcheck("C20", "scaling", shards={"quick": 7, "thorough": 7})
+def s_scaling(ctx):
+    try:
+        ctx.enumerate("C20.scaling", scaling_cases(ctx.tier), label=f"same_relative_fault_at_N_and_4N_{ctx.tier}")
+    finally:
+        _WORKER.kill()
+
+
 @subcheck("C20", "systematic", shards={"quick": 12, "thorough": 16})
 def s_systematic(ctx):
     try:
@@ -320,4 +399,4 @@ def s_random(ctx):
         _WORKER.kill()
 
 
-REQUIRED_CLASSES["C20"] = ["fmt:stl", "fmt:ply", "fmt:glb", "fmt:obj", "fmt:3mf", "fmt:dxf", "fmt:svg", "fault:truncate", "fault:word", "fault:line_digit", "fault:multi", "fault:small_int"]
+REQUIRED_CLASSES["C20"] = ["fmt:stl", "fmt:ply", "fmt:glb", "fmt:obj", "fmt:3mf", "fmt:dxf", "fmt:svg", "fault:truncate", "fault:word", "fault:line_digit", "fault:multi", "fault:small_int", "fault:zip_member", "scaling:off", "scaling:glb"]
